@@ -8,6 +8,11 @@ None == [op |-> "none"]
 Init == cur \in Durs /\ last = None
 Move(o) == IF o.kind = "ok" THEN o.val ELSE cur
 NewAct(D) == last' = [op |-> "new", d |-> D, out |-> DurNew(D)] /\ cur' = cur
+\* the same candidate vectors as property bags: only the fields in S are supplied
+KeySets == {{}, DurKeySet, {"y", "ns"}, {"d", "h"}, {"mo", "w", "s"}} \cup {{k} : k \in DurKeySet}
+\* (independent of the session's current duration: explored from one anchor only)
+Anchor == CHOOSE c \in Durs : TRUE
+FromPartialAct(D, S) == cur = Anchor /\ LET p == [k \in S |-> D[k]] IN last' = [op |-> "fromPartial", d |-> D, p |-> p, out |-> DurFromPartial(p)] /\ cur' = cur
 NegAct == last' = [op |-> "negated", a |-> cur, out |-> Ok(NegDur(cur))] /\ cur' = NegDur(cur)
 AbsAct == last' = [op |-> "abs", a |-> cur, out |-> Ok(AbsDur(cur))] /\ cur' = AbsDur(cur)
 SignAct == last' = [op |-> "sign", a |-> cur, out |-> Ok(DurSign(cur))] /\ cur' = cur
@@ -19,6 +24,7 @@ RoundAct(o) == LET r == DurRound(cur, o.lg, o.sm, o.inc, o.mode)
 TotalAct(u) == last' = [op |-> "total", a |-> cur, u |-> u, out |-> DurTotal(cur, u)] /\ cur' = cur
 Next == /\ (OneStep => last = None)
         /\ \/ \E D \in Candidates : NewAct(D)
+           \/ \E D \in Candidates, S \in KeySets : FromPartialAct(D, S)
            \/ NegAct \/ AbsAct \/ SignAct
            \/ \E b \in Durs : AddAct(b) \/ SubAct(b) \/ CmpAct(b)
            \/ \E o \in RoundOpts : RoundAct(o)
@@ -52,4 +58,10 @@ TotalLaws == last.op = "total" => (last.out.kind = "ok" =>
   /\ Eq(Mul(last.out.val.d, FromInt(1)), UnitNsBig(last.u))
   /\ DurTotal(NegDur(last.a), last.u) = Ok([n |-> Neg(last.out.val.n), d |-> last.out.val.d]))
 NewLaws == last.op = "new" => (last.out.kind = "ok") = ValidDur(last.d)
+\* a bag is a TypeError exactly when it is empty; a full bag is the constructor; absent fields never turn a valid vector invalid
+PartialLaws == last.op = "fromPartial" =>
+  /\ (last.out.kind = "type") = (DOMAIN last.p = {})
+  /\ (DOMAIN last.p = DurKeySet => last.out = DurNew(last.d))
+  /\ (DOMAIN last.p # {} /\ ValidDur(last.d) => last.out = Ok(FillDur(last.p)))
+  /\ (last.out.kind = "ok" => \A k \in DurKeySet \ DOMAIN last.p : IsZero(last.out.val[k]))
 =============================================================================
